@@ -141,14 +141,44 @@ func (g *G) ts() pcommon.Timestamp {
 
 func (g *G) traceID() pcommon.TraceID {
 	var t pcommon.TraceID
-	g.R.Read(t[:])
+	g.structuredID(t[:])
 	return t
 }
 
 func (g *G) spanID() pcommon.SpanID {
 	var t pcommon.SpanID
-	g.R.Read(t[:])
+	g.structuredID(t[:])
 	return t
+}
+
+// structuredID fills an id. Encoders skip ids they consider empty, so about a third of the ids are the
+// shapes an emptiness test written word by word gets wrong: first half zero (a 64-bit id padded to 128
+// bits), second half zero, a single non-zero byte at a random position, all 0xff; the rest are random.
+// The all-zero ("absent") id is never produced here: callers decide themselves whether an id is set.
+func (g *G) structuredID(b []byte) {
+	g.R.Read(b)
+	switch k := g.R.Intn(12); k {
+	case 0:
+		for i := 0; i < len(b)/2; i++ {
+			b[i] = 0
+		}
+		b[len(b)-1] |= 1
+	case 1:
+		for i := len(b) / 2; i < len(b); i++ {
+			b[i] = 0
+		}
+		b[0] |= 1
+	case 2:
+		p, x := g.R.Intn(len(b)), b[0]|1
+		for i := range b {
+			b[i] = 0
+		}
+		b[p] = x
+	case 3:
+		for i := range b {
+			b[i] = 0xff
+		}
+	}
 }
 
 func (g *G) schema(kind string, i int) string {
@@ -546,7 +576,7 @@ func (g *G) Profiles() pprofile.Profiles {
 
 func (g *G) profile(p pprofile.Profile) {
 	var pid pprofile.ProfileID
-	g.R.Read(pid[:])
+	g.structuredID(pid[:])
 	p.SetProfileID(pid)
 	p.StringTable().Append("", "cpu", "ns", g.word(5))
 	if b := g.big(); b != "" {
